@@ -609,3 +609,19 @@ Section Model.
     | Opt b => fun o => match o with Some x => negb (b_is_none b x) | None => true end
     end.
 End Model.
+
+(* ------------------------------------------------------------------ *)
+(* IsNone for Vec<T> (isnone.rs l.800-848; added by the C15 audit, definitions only): the null is the empty vector;
+   Inner = Vec<T>; unwrap / from_inner are the identity; not_none and from_opt are the default methods *)
+Section VecNone.
+  Context {T : Type}.
+  Definition vec_is_none (v : list T) : bool := match v with [] => true | _ :: _ => false end.   (* is_empty *)
+  Definition vec_none : list T := [].                                                              (* Vec::new() *)
+  Definition vec_not_none (v : list T) : bool := negb (vec_is_none v).                           (* default *)
+  Definition vec_to_opt (v : list T) : option (list T) := if vec_is_none v then None else Some v.
+  Definition vec_as_opt (v : list T) : option (list T) := if vec_is_none v then None else Some v.
+  Definition vec_from_inner (v : list T) : list T := v.
+  Definition vec_unwrap (v : list T) : res (list T) := Ok v.                                       (* override: self *)
+  Definition vec_from_opt (o : option (list T)) : list T :=                                        (* default: map_or_else(none, from_inner) *)
+    match o with None => vec_none | Some x => vec_from_inner x end.
+End VecNone.
